@@ -328,14 +328,15 @@ thread_local! {
 }
 
 pub fn parse_cli(args: &[String]) -> Result<Cli, String> {
-    CMD.with(|c| {
-        let mut c = c.borrow_mut();
-        let full = std::iter::once("jawk".to_string()).chain(args.iter().cloned());
-        match c.try_get_matches_from_mut(full) {
-            Ok(m) => Cli::from_arg_matches(&m).map_err(|e| e.to_string()),
-            Err(e) => Err(e.to_string()),
-        }
-    })
+    CMD.with(|c| parse_cli_with(&mut c.borrow_mut(), args))
+}
+
+fn parse_cli_with(c: &mut clap::Command, args: &[String]) -> Result<Cli, String> {
+    let full = std::iter::once("jawk".to_string()).chain(args.iter().cloned());
+    match c.try_get_matches_from_mut(full) {
+        Ok(m) => Cli::from_arg_matches(&m).map_err(|e| e.to_string()),
+        Err(e) => Err(e.to_string()),
+    }
 }
 
 pub fn silence_panics() {
@@ -417,8 +418,49 @@ pub fn run(case: &Case) -> Obs {
     obs
 }
 
+thread_local! {
+    /// every run on a thread of its own (`JV_FRESH_THREAD=1`: the orchestrator's second attempt, see main.rs)
+    static FRESH_MODE: bool = std::env::var_os("JV_FRESH_THREAD").is_some();
+    static FORCE_FRESH: std::cell::Cell<bool> = const { std::cell::Cell::new(false) };
+}
+
+/// run `f` with every subject run inside it on a thread of its own
+pub fn on_fresh_threads<T>(f: impl FnOnce() -> T) -> T {
+    let old = FORCE_FRESH.with(|c| c.replace(true));
+    let r = f();
+    FORCE_FRESH.with(|c| c.set(old));
+    r
+}
+
+pub fn fresh_mode() -> bool {
+    FRESH_MODE.with(|b| *b)
+}
+
+/// A real run is a process of its own; the runs of a worker share one process, and - by default - one thread. What the
+/// subject keeps in thread-locals or statics between two calls then shapes every later run alike: the single runs an
+/// oracle compares with and the run under test, so the state hides itself. A thread per run removes the thread-local
+/// part of that, but costs ~150 us per run on this machine when 16 workers do it at once (7 x the run itself), so it is
+/// the probe (every 97th run is repeated on a thread of its own, `Ctx::run`) and the fall-back mode (when a probe
+/// diverged, the orchestrator starts the whole check again with `JV_FRESH_THREAD=1`), not the default.
 pub fn run_with(args: &[String], data: Vec<u8>, rplan: &ReadPlan, wplan: &WritePlan) -> Obs {
-    let cli = match parse_cli(args) {
+    if !(fresh_mode() || FORCE_FRESH.with(|c| c.get())) {
+        return CMD.with(|c| run_on_this_thread(&mut c.borrow_mut(), args, data, rplan, wplan));
+    }
+    CMD.with(|c| {
+        let mut cmd = c.borrow_mut();
+        let cmd: &mut clap::Command = &mut cmd;
+        std::thread::scope(|s| {
+            let h = std::thread::Builder::new().stack_size(8 << 20).spawn_scoped(s, move || run_on_this_thread(cmd, args, data, rplan, wplan));
+            match h {
+                Ok(h) => h.join().unwrap_or_else(|p| Obs { res: Res::Panic(panic_msg(p)), stdout: vec![], stderr: vec![], factory_calls: 0, bytes_pulled: 0, read_calls: 0, reads_after_error: 0, horizon_hit: false, stdout_write_calls: 0 }),
+                Err(e) => panic!("cannot start a thread for the run: {e}"),
+            }
+        })
+    })
+}
+
+fn run_on_this_thread(cmd: &mut clap::Command, args: &[String], data: Vec<u8>, rplan: &ReadPlan, wplan: &WritePlan) -> Obs {
+    let cli = match parse_cli_with(cmd, args) {
         Ok(c) => c,
         Err(e) => {
             return Obs {
